@@ -3,11 +3,12 @@ from checks.generic import standard
 def run(ctx):
     return standard(ctx,
         props=[("Props.C05", ["c05_inv", "c05_no_cross_user", "c05_onetime", "c05_expired",
-                              "c05_old_poll_refuted", "c05_old_totp_replay_refuted", "c05_old_challenge_refuted", "c05_old_cert_cookie_refuted"])],
+                              "c05_old_poll_refuted", "c05_old_totp_replay_refuted", "c05_old_challenge_refuted", "c05_old_cert_cookie_refuted",
+                              "c05_cookie_expired", "c05_first_cookie_refuted", "c05_old_vip_expiry_refuted"])],
         harness=("TestVerif_C05", ["kmd/common.go", "kmd/creds.go", "kmd/consts.go", "kmd/c05.go"]),
-        cases=("CasesC05.v", [("c05_mismatches", "per-step (success, subject, level) of every history: real handlers = Model.Session")], "CasesC05.idx"),
+        cases=("CasesC05.v", [("c05_mismatches", "per-step (success, subject, level, iat, exp) of every history: real handlers = Model.Session")], "CasesC05.idx"),
         trusted=["external verifiers are environment: the fake VIP endpoint, the TOTP algorithm (pquerna/otp), ECDSA / the U2F and WebAuthn libraries decide whether a presented value is right; the model carries their answer and whom it is about",
                  "time steps are simulated by moving what the handlers read (LastSuccessfullTOTPCounter, BootstrapOTP.ExpiresAt, localAuthData.ExpiresAt); the per-user TOTP throttle (C14) is cleared before every TOTP attempt",
-                 "auth cookie expiry (16 h) is not modelled: histories are shorter; the model keeps every cookie usable (more behaviours, same invariant)"],
+                 "what clients hold ages with the simulated clock too: on a time step every issued auth cookie and CLI token is re-signed by the harness with iat/nbf/exp moved back (same claims otherwise, server key)"],
         assumptions=["signatures are unforgeable: the adversary attaches only cookies / tokens the server issued (by position in the list of everything issued)"],
         timeout=1500)
